@@ -75,6 +75,19 @@ nni_list_next(const nni_list *l, void *it)
 	__CPROVER_assert(q->n >= 3 && it == q->item[2], "list_next: item is a member of that queue");
 	return (NULL);
 }
+void *
+nni_list_last(const nni_list *l)
+{
+	/* (not used by the unchanged code under contract; models a walk to the end of the receive wait queue) */
+	__CPROVER_assert(l == g_recvq_addr, "list_last: the receive wait queue");
+	if (g_recvq.n == 0) {
+		return (NULL);
+	}
+	if (g_recvq.n == 1) {
+		return (g_recvq.head);
+	}
+	return (g_recvq.n == 2 ? g_recvq.next : vp_unknown_aio(g_recvq.head));
+}
 int
 nni_list_empty(nni_list *l)
 {
